@@ -32,7 +32,7 @@
 (***************************************************************************)
 EXTENDS Naturals, Sequences, FiniteSets, TLC, Json
 
-CONSTANTS Part      \* which slice of the partition: "name" | "unit" | "cross" | "bytes"
+CONSTANTS Part      \* which slice of the partition: "name" | "unit" | "cross" | "bytes" | "all"
 
 AllDevs == {"name-validated-as-c-string", "unit-validated-as-c-string"}
 
@@ -126,6 +126,7 @@ ByteCases == {Case(<<R("lower", 1), R(c, 1), R("alnum", 1)>>, "z", GoodUnit, "z"
 
 Cases == CASE Part = "name" -> NameCases [] Part = "unit" -> UnitCases
            [] Part = "cross" -> CrossCases [] Part = "bytes" -> ByteCases
+           [] Part = "all" -> NameCases \cup UnitCases \cup CrossCases \cup ByteCases
 
 VARIABLE c
 Init == c \in Cases
